@@ -414,6 +414,22 @@ class World:
             return v
 
         tc.identifier_to_pivot = tapped_itp
+        # where an individually drawn operation finally lands (its rectilinear transform)
+        self.taps["components"] = []
+        dcf = self.lib.DrawComponentFactoryManager
+        if dcf is not None and "construct" in vars(dcf):
+            real_construct = vars(dcf)["construct"]
+
+            def tapped_construct(self_, operation, transform_constructor):
+                comp = real_construct(self_, operation, transform_constructor)
+                try:
+                    t = comp.rectilinear_transform
+                    w.taps["components"].append((operation, float(t.origin_pivot.x), float(t.pivot.y), float(t.width), float(t.height)))
+                except Exception:
+                    pass
+                return comp
+
+            dcf.construct = tapped_construct
 
     # ------------------------------------------------------------------ process-global library state
     def _collect_process_state(self):
@@ -508,6 +524,7 @@ class World:
         self.plt.close("all")
         self.taps["descriptions"].clear()
         self.taps["pivots"].clear()
+        self.taps["components"].clear()
         self.uuid_counter = 0
         gc.collect()
         return leaked
